@@ -1,15 +1,29 @@
-(** Control-flow (effect skeleton) obligations of C11 (resource side): images opened by
-    the library are closed on every path, [_renderer] restores the size setting, an
-    animated draw() restores the seek position.  Lemmas only.
+(** Control-flow (effect skeleton) obligations of C11 (resource side): every image opened
+    by the library is handed to [_close_image] on every path and under every fault
+    position, the frame image of an iterator is never closed by a render, [_renderer]
+    restores the size setting, an animated draw() restores the seek position and closes its
+    iterator.  Lemmas only.
 
-    Image convention of the translator (harness/tx/tx_skel.py): [OpenImg i] at
-    [self._get_image()]; [CloseImg i] at [self._close_image(x)] and at the call
-    [self._render_image(x, ...)], which takes over the image (the style's [_render_image]
-    -> [_get_render_data] closes it: that pairing, with its aliasing of [img] / [prev_img] /
-    [frame_img], is NOT translated -- see the report). *)
+    Two kinds of skeleton:
+    * TRANSLATED from the working tree on every run (gen/Skeletons.v, harness/tx/tx_skel.py):
+      [draw], [draw.render], [_display_animated], [_renderer].  Image convention of the
+      translator: [OpenImg i] at [self._get_image()]; [CloseImg i] at [self._close_image(x)]
+      and at the call [self._render_image(x, ..)], which takes over the image.
+    * HAND-WRITTEN (model/ImgSkel.v): what happens behind that call — [_get_render_data],
+      [convert_resize_img] and the three [_render_image]s with the aliasing of [img] /
+      [prev_img] / [frame_img] resolved; [render_image_closes_its_image] below is the
+      justification of the translator's convention.
+
+    The statements are about the code AS REPAIRED by
+    pending_fixes/C11_close_unrendered_images.diff ([_renderer] closes the image when the
+    renderer raises).  Before that repair the full statement fails:
+    [analyze cfg_draw .. draw .. imgs_closed = false] (an exception between [_get_image()] and
+    the point where the image is handed over — the cursor-hiding write, an invalid style
+    argument, an invalid repeat / cached — left the image to the garbage collector), and
+    [unguarded_renderer_leaks] below shows that the handler is necessary. *)
 From Coq Require Import List Bool Arith.
 Import ListNotations.
-From TI Require Import lib.Eff lib.EffSound lib.EffRun gen.Skeletons.
+From TI Require Import lib.Eff lib.EffSound lib.EffRun gen.Skeletons model.ImgSkel.
 
 (** ** [_renderer] restores the size setting -- whatever raises, anywhere *)
 Lemma renderer_size_analysis :
@@ -31,64 +45,169 @@ Lemma old_draw_restores_size :
   forall o s', eval cfg_all false (protect sk_BaseImage_draw) (init vs) o s' -> szmod s' = false.
 Proof. intros vs Hl o s' He. apply negb_true_iff. exact (analyze_sound _ _ _ _ old_draw_size_analysis vs Hl o s' He). Qed.
 
-(** ** an animated draw() restores the seek position and closes its iterator *)
-(** fault positions: frame renders (incl. the generator's next()), frame writes, flushes, sleeps *)
-Lemma display_animated_seek_analysis :
-  analyze cfg_draw nv_BaseImage__display_animated sk_BaseImage__display_animated
-    (fun _ s => negb (skmod s) && negb (iter_open s) && imgs_closed s) = true.
+(** ** an animated draw() restores the seek position and closes the image it was given *)
+Lemma display_animated_analysis :
+  analyze cfg_c11 nv_BaseImage__display_animated sk_BaseImage__display_animated
+    (fun _ s => negb (skmod s) && imgs_closed s) = true.
 Proof. vm_compute. reflexivity. Qed.
 
 Lemma display_animated_restores :
   forall vs, length vs = nv_BaseImage__display_animated ->
-  forall o s', eval cfg_draw false sk_BaseImage__display_animated (init vs) o s' ->
-    skmod s' = false /\ iter_open s' = false /\ imgs_closed s' = true.
+  forall o s', eval cfg_c11 false sk_BaseImage__display_animated (init vs) o s' ->
+    skmod s' = false /\ imgs_closed s' = true.
 Proof.
-  intros vs Hl o s' He. pose proof (analyze_sound _ _ _ _ display_animated_seek_analysis vs Hl o s' He) as H.
-  simpl in H. repeat (apply andb_true_iff in H; destruct H as [H ?]).
+  intros vs Hl o s' He. pose proof (analyze_sound _ _ _ _ display_animated_analysis vs Hl o s' He) as H.
+  simpl in H. apply andb_true_iff in H. destruct H as [H1 H2]. apply negb_true_iff in H1. auto.
+Qed.
+
+(** ... and closes its frame iterator.  Fault positions here: frame renders (incl. the
+    generator's next()), frame writes, flushes, sleeps ([cfg_draw]) -- NOT the two string
+    formatting expressions between the creation of the iterator and the [try] (1332-1333),
+    an exception in which would leave the iterator to its [__del__]; and the translator
+    reads [image_it.close()] (repaired code, 1332: release of the image the constructor
+    opened) as the end of the iterator without seeing that the next line re-arms it, so a
+    statement under [cfg_c11] would hold for the wrong reason. *)
+Lemma display_animated_iter_analysis :
+  analyze cfg_draw nv_BaseImage__display_animated sk_BaseImage__display_animated
+    (fun _ s => negb (iter_open s)) = true.
+Proof. vm_compute. reflexivity. Qed.
+
+Lemma display_animated_closes_iterator :
+  forall vs, length vs = nv_BaseImage__display_animated ->
+  forall o s', eval cfg_draw false sk_BaseImage__display_animated (init vs) o s' -> iter_open s' = false.
+Proof.
+  intros vs Hl o s' He. apply negb_true_iff.
+  exact (analyze_sound _ _ _ _ display_animated_iter_analysis vs Hl o s' He).
+Qed.
+
+(** ** the whole draw(): image, size setting, seek position -- one statement *)
+Definition draw_clean (s : st) : bool := imgs_closed s && negb (szmod s) && negb (skmod s).
+
+Lemma draw_analysis :
+  analyze cfg_c11 nv_BaseImage_draw (protect sk_BaseImage_draw) (fun _ s => draw_clean s) = true.
+Proof. vm_compute. reflexivity. Qed.
+
+Lemma draw_leaves_nothing :
+  forall vs, length vs = nv_BaseImage_draw ->
+  forall o s', eval cfg_c11 false (protect sk_BaseImage_draw) (init vs) o s' ->
+    imgs_closed s' = true /\ szmod s' = false /\ skmod s' = false.
+Proof.
+  intros vs Hl o s' He. pose proof (analyze_sound _ _ _ _ draw_analysis vs Hl o s' He) as H.
+  unfold draw_clean in H. repeat (apply andb_true_iff in H; destruct H as [H ?]).
   repeat match goal with Hx : negb _ = true |- _ => apply negb_true_iff in Hx end. auto.
 Qed.
 
-Lemma old_draw_seek_analysis :
+Lemma draw_iter_analysis :
   analyze cfg_draw nv_BaseImage_draw (protect sk_BaseImage_draw) (fun _ s => negb (skmod s) && negb (iter_open s)) = true.
 Proof. vm_compute. reflexivity. Qed.
+
+(** (fault positions of [cfg_draw], see above) *)
 Lemma draw_restores_seek :
   forall vs, length vs = nv_BaseImage_draw ->
   forall o s', eval cfg_draw false (protect sk_BaseImage_draw) (init vs) o s' -> skmod s' = false /\ iter_open s' = false.
 Proof.
-  intros vs Hl o s' He. pose proof (analyze_sound _ _ _ _ old_draw_seek_analysis vs Hl o s' He) as H.
+  intros vs Hl o s' He. pose proof (analyze_sound _ _ _ _ draw_iter_analysis vs Hl o s' He) as H.
   simpl in H. apply andb_true_iff in H. destruct H as [H1 H2]. apply negb_true_iff in H1, H2. auto.
 Qed.
 
-(** ** images opened by the library are closed again *)
-(** fault positions: frame renders, the generator's next(), frame writes, sleeps *)
-Definition mf_frames (o : op) : bool :=
-  match o with Render | AnimNext | Sleep | Write WFrame => true | _ => false end.
-Definition cfg_frames : cfg := mkcfg mf_frames all_kinds.
+(** every image opened by draw() is closed on every path, whatever raises *)
+Lemma images_balanced :
+  forall vs, length vs = nv_BaseImage_draw ->
+  forall o s', eval cfg_c11 false (protect sk_BaseImage_draw) (init vs) o s' -> imgs_closed s' = true.
+Proof. intros vs Hl o s' He. destruct (draw_leaves_nothing vs Hl o s' He) as (? & _). assumption. Qed.
 
-Lemma old_draw_images_analysis :
-  analyze cfg_frames nv_BaseImage_draw (protect sk_BaseImage_draw) (fun _ s => imgs_closed s) = true.
+(** ** [_renderer]: when the renderer raises, the image has been closed -- whatever the
+    renderer is (here: one that may raise at any point and never closes anything) *)
+Lemma renderer_failure_analysis :
+  analyze cfg_c11 nv_BaseImage__renderer (sk_BaseImage__renderer (sq [Op Other; Op Render; Op Other]))
+    (fun o s => match o with ORaise _ => imgs_closed s | _ => true end) = true.
 Proof. vm_compute. reflexivity. Qed.
 
-(** PARTIAL (see [old_draw_images_refuted]): the image opened by [_renderer] is closed on
-    every path when the failure is in a frame render / frame write / sleep.  The full
-    statement -- [cfg_draw] or [cfg_render] in place of [cfg_frames] -- does not hold of the
-    current source: *)
-Lemma images_balanced_partial :
-  forall vs, length vs = nv_BaseImage_draw ->
-  forall o s', eval cfg_frames false (protect sk_BaseImage_draw) (init vs) o s' -> imgs_closed s' = true.
-Proof. exact (analyze_sound _ _ _ _ old_draw_images_analysis). Qed.
+Lemma renderer_closes_on_failure :
+  forall vs, length vs = nv_BaseImage__renderer ->
+  forall k s', eval cfg_c11 false (sk_BaseImage__renderer (sq [Op Other; Op Render; Op Other])) (init vs) (ORaise k) s' ->
+    imgs_closed s' = true.
+Proof. intros vs Hl k s' He. exact (analyze_sound _ _ _ _ renderer_failure_analysis vs Hl _ s' He). Qed.
 
-(** an exception raised between [_get_image()] and the point where the image is handed to
-    [_render_image] / [_display_animated]'s [try] -- the cursor-hiding write, an invalid
-    style argument rejected by [_check_style_args], an invalid [repeat]/[cached] rejected by
-    [ImageIterator] -- leaves the opened image to the garbage collector *)
-Lemma old_draw_images_refuted :
-  analyze cfg_draw nv_BaseImage_draw (protect sk_BaseImage_draw) (fun _ s => imgs_closed s) = false /\
-  analyze cfg_render nv_BaseImage_draw (protect sk_BaseImage_draw) (fun _ s => imgs_closed s) = false.
-Proof. vm_compute. auto. Qed.
+(** ** behind [_render_image] (hand-written skeletons, model/ImgSkel.v) *)
 
-(** non-vacuity: an animation interrupted after the seek position moved *)
+(** format() / str() / a still draw(): [_renderer] around each style's [_render_image] with
+    [frame = False] -- the image is closed on EVERY exit, the size setting restored *)
+Lemma format_analysis :
+  forallb (fun r => analyze cfg_c11 nv_imgskel (sk_BaseImage__renderer (as_renderer r))
+                      (fun _ s => imgs_closed s && negb (szmod s))) render_images = true.
+Proof. vm_compute. reflexivity. Qed.
+
+Lemma format_images_balanced :
+  forall r, In r render_images ->
+  forall vs, length vs = nv_imgskel ->
+  forall o s', eval cfg_c11 false (sk_BaseImage__renderer (as_renderer r)) (init vs) o s' ->
+    imgs_closed s' = true /\ szmod s' = false.
+Proof.
+  intros r Hr vs Hl o s' He.
+  pose proof (proj1 (forallb_forall _ _) format_analysis r Hr) as Ha.
+  pose proof (analyze_sound _ _ _ _ Ha vs Hl o s' He) as H. simpl in H.
+  apply andb_true_iff in H. destruct H as [H1 H2]. apply negb_true_iff in H2. auto.
+Qed.
+
+(** the translator's convention: a [_render_image(img, .., frame=False)] that RETURNS has
+    handed [img] to [_close_image] *)
+Lemma render_image_analysis :
+  forallb (fun r => analyze cfg_c11 nv_imgskel (sq [Op (OpenImg 0); as_renderer r])
+                      (fun o s => match o with ORaise _ => true | _ => imgs_closed s end)) render_images = true.
+Proof. vm_compute. reflexivity. Qed.
+
+Lemma render_image_closes_its_image :
+  forall r, In r render_images ->
+  forall vs, length vs = nv_imgskel ->
+  forall o s', eval cfg_c11 false (sq [Op (OpenImg 0); as_renderer r]) (init vs) o s' ->
+    (forall k, o <> ORaise k) -> imgs_closed s' = true.
+Proof.
+  intros r Hr vs Hl o s' He Ho.
+  pose proof (proj1 (forallb_forall _ _) render_image_analysis r Hr) as Ha.
+  pose proof (analyze_sound _ _ _ _ Ha vs Hl o s' He) as H. simpl in H.
+  destruct o; auto. elim (Ho k). reflexivity.
+Qed.
+
+(** ... and one that raises may not have: without the handler of [_renderer] the image is
+    left to the garbage collector (this is the code before the repair) *)
+Lemma unguarded_renderer_leaks :
+  forallb (fun r => negb (analyze cfg_c11 nv_imgskel (sq [Op (OpenImg 0); as_renderer r])
+                            (fun _ s => imgs_closed s))) render_images = true.
+Proof. vm_compute. reflexivity. Qed.
+
+(** a frame of an iterator ([frame = True]): the image passed in is NEVER closed, on no
+    path, whatever raises (the iterator keeps using it; [ImageIterator.close] closes it) *)
+Lemma frame_analysis :
+  forallb (fun r => analyze cfg_c11 nv_imgskel (as_frame r) (fun _ s => get 0 (imgs s))) render_images = true.
+Proof. vm_compute. reflexivity. Qed.
+
+Lemma frame_image_never_closed :
+  forall r, In r render_images ->
+  forall vs, length vs = nv_imgskel ->
+  forall o s', eval cfg_c11 false (as_frame r) (init vs) o s' -> get 0 (imgs s') = true.
+Proof.
+  intros r Hr vs Hl o s' He.
+  pose proof (proj1 (forallb_forall _ _) frame_analysis r Hr) as Ha.
+  exact (analyze_sound _ _ _ _ Ha vs Hl o s' He).
+Qed.
+
+(** ** non-vacuity *)
+(** an animation interrupted after the seek position moved *)
 Example display_animated_witness :
-  witness cfg_draw KI true skmod (fun s => negb (skmod s) && imgs_closed s) ONorm sk_BaseImage__display_animated
+  witness cfg_c11 KI true skmod (fun s => negb (skmod s) && imgs_closed s) ONorm sk_BaseImage__display_animated
           (repeat false nv_BaseImage__display_animated) 60 = true.
+Proof. vm_compute. reflexivity. Qed.
+
+(** a draw() that fails while its image is open: the image is closed when the exception leaves *)
+Definition img0_open (s : st) : bool := get 0 (imgs s).
+Example draw_failure_witness :
+  witness cfg_c11 Exc false img0_open draw_clean (ORaise Exc) (protect sk_BaseImage_draw)
+          (repeat false nv_BaseImage_draw) 80 = true.
+Proof. vm_compute. reflexivity. Qed.
+
+(** a conversion that fails inside [_get_render_data] during format(): closed by [_renderer] *)
+Example format_failure_witness :
+  witness cfg_c11 Exc false img0_open imgs_closed (ORaise Exc)
+          (sk_BaseImage__renderer (as_renderer sk_kitty_render_image)) (repeat false nv_imgskel) 80 = true.
 Proof. vm_compute. reflexivity. Qed.
